@@ -71,6 +71,15 @@ FIRST = {
     'C17-m8': 'missed -> C17 asserts the order of the small-state remainder (two halvings) and kT(0) == k0uu on loaded shells',
     'C18-m7': 'missed -> C18.fext places a constant and an incremented force at exactly the same point',
     'C20-m8': 'missed -> C20 hands the load tables over as float64 arrays and checks that calc_fext leaves them untouched',
+    # round 5
+    'C02-m9': 'missed (by reading: C02 never took the numeric route; first run was with the addition) -> C02.k0 compares the pre-loaded and the bare matrix on the numerically integrated route too (calc_k0 given c = 0 or the laminate explicitly); this sub-check also exposed the defect repaired in e2fe18e',
+    'C03-m9': 'missed -> C03.const hands the uniform laminate over explicitly (6x6 or per-point table) without a Ritz state: the constant-load matrix must not change',
+    'C06-m9': 'missed -> new sub-check C06.nonsymmetric_pairs (K = SPD + skew coupling with complex-conjugate pairs, both solver switches, residual with the complex mode); C19.freq draws the sparse switch too',
+    'C08-m9': 'missed -> C08.panel draws membrane-only (every w amplitude exactly zero) and bending-only states for the single panel as C08.assembly already did',
+    'C12-m9': 'missed -> C12.assembly lists a second connection of the same kind between the same ordered pair of panels along another line',
+    'C15-m9': 'counted as missed (E1 == E2 exactly was left to chance; first run was with the widened generator) -> the ply-material generator (all checks) makes one material in six a balanced fabric: E1 == E2 exactly with shear moduli of its own',
+    'C17-m9': 'missed -> C17 draws pdT=False (torque under force control) so that with pdC the prescribed amplitudes are numbers 0 and 2',
+    'C19-m9': 'missed -> C19.panel evaluates a sibling panel (one attribute different, w edge flags favoured) first in the same process (pkg.decoy_case)',
 }
 
 
